@@ -226,6 +226,12 @@ func (ip *Inode) indbmap(atxn *alloctxn.AllocTxn, root_ common.Bnum, level uint6
 	blkno, newnextroot := ip.indbmap(atxn, nxtroot, level-1, ind)
 	atxn.AssertValidBlock(newnextroot)
 	atxn.AssertValidBlock(blkno)
+	if blkno == common.NULLBNUM && root_ == common.NULLBNUM {
+		// nothing below could be allocated: an index block without
+		// children beyond the end of the file would never be freed
+		atxn.FreeBlock(root)
+		return common.NULLBNUM, common.NULLBNUM
+	}
 	if newnextroot != nxtroot {
 		buf.BnumPut(bo, newnextroot)
 	}
